@@ -100,7 +100,9 @@ def normalize_parsed_frame(
 ) -> dict[str, str | int | float | datetime]:
     """Convert data from meters construct structure to a dictionary with common key names."""
     dictionary = _normalize_parsed_items(frame.information.notification_body.list_items)
-    dictionary[obis_map.FIELD_METER_DATETIME] = frame.information.DateTime.datetime
+    apdu_datetime = frame.information.DateTime
+    if hasattr(apdu_datetime, "datetime"):  # null-data when the APDU has no date-time
+        dictionary[obis_map.FIELD_METER_DATETIME] = apdu_datetime.datetime
     return dictionary
 
 
